@@ -211,6 +211,8 @@ def rule_order(ctx):
     # per-stream FIFO on the wire: a terminal/control frame must not overtake fragments of its own stream
     from .c05 import rule_a as c05a
     c05a(ctx)
+    from .c05 import rule_f as c05f_
+    c05f_(ctx)
 
 
 RULES = [('C10.a', rule_a), ('C10.b', rule_b), ('C10.c', rule_c), ('C05.a', rule_order), ('C03.c', rule_d)]
